@@ -18,6 +18,7 @@
 // convolution into this block, so its rounding error scales with the previous block too (a 1e+100 block followed by an O(1)
 // block leaves an error of eps*1e+100 in the first m-1 outputs of the latter).  The two-block form is the derived bound.
 #include "kit/num.h"
+#include "kit/prelude.h"
 #include <dsplib.h>
 #include "ma-filter.h"
 
